@@ -233,6 +233,19 @@ def main(argv=None):
             print(f"CHECK-ERROR property={prop} a call-site summary excludes what the real code does on {g7['miss']} cross-check inputs (contract fault, no verdict)")
             return 3
     results = run_all(targets, args.jobs)
+    # bounded stand-in (C05 only): the one clause that is not proved, "parser steps proportional to the input size", is MEASURED on
+    # the real code over a finite adversarial family (selftest/cost_standin.py); reported under bounded_standins, never as proved
+    args.standins = []
+    if prop == "C05" and not args.only and not os.environ.get("PYVC_SKIP_STANDIN"):
+        env = dict(os.environ, PYTHONPATH=os.path.join(args.repo, "src"), SELFTEST_TESTS=os.path.join(args.repo, "tests"),
+                   COST_MAX_SIZE="1000000" if thorough else "50000")
+        env.setdefault("VERIF_SEED", "1")
+        try:
+            p = subprocess.run(["/venv/bin/python", os.path.join(VERIF, "selftest", "cost_standin.py")], env=env, capture_output=True, text=True, timeout=3600)
+            args.standins.append({"function": "dpapi_ng._blob.DPAPINGBlob.unpack", "clause": "parser steps proportional to input size",
+                                  **(json.loads(p.stdout) if p.returncode == 0 else {"error": p.stderr[-400:]})})
+        except Exception as e:
+            args.standins.append({"function": "dpapi_ng._blob.DPAPINGBlob.unpack", "clause": "parser steps proportional to input size", "error": f"{type(e).__name__}: {e}"})
 
     from pyvc.report import decide
 
